@@ -446,3 +446,52 @@ pub fn tree_tokens(rng: &mut Rng, t: &HctlTreeNode, top: bool) -> Vec<HctlToken>
     // hybrid child of a hybrid node directly, everything else gets a group, which is what the grammar wants.
     out
 }
+
+
+/// rename variables of a tree
+pub fn rename_tree_vars(t: &HctlTreeNode, map: &std::collections::HashMap<String, String>) -> HctlTreeNode {
+    match &t.node_type {
+        NodeType::Terminal(Atomic::Var(x)) => HctlTreeNode::mk_variable(map.get(x).unwrap_or(x)),
+        NodeType::Terminal(_) => t.clone(),
+        NodeType::Unary(o, c) => HctlTreeNode::mk_unary(rename_tree_vars(c, map), o.clone()),
+        NodeType::Binary(o, l, r) => HctlTreeNode::mk_binary(rename_tree_vars(l, map), rename_tree_vars(r, map), o.clone()),
+        NodeType::Hybrid(o, x, d, c) => HctlTreeNode::mk_hybrid(rename_tree_vars(c, map), map.get(x).unwrap_or(x), d.clone(), o.clone()),
+    }
+}
+
+/// a closed formula containing two copies of a sub-formula over two variables with the roles of the
+/// variables swapped (or shifted): `Q{x}: Q{y}: body(x,y) OP body(y,x)`; optionally a third variable.
+pub fn swapped_duplicates(rng: &mut Rng, spec: &TreeSpec, three: bool) -> HctlTreeNode {
+    let mut bspec = spec.clone();
+    bspec.hybops = vec![HybridOp::Jump];
+    bspec.vars = vec!["x".to_string(), "y".to_string()];
+    let mut scope = vec!["x".to_string(), "y".to_string()];
+    let size = 2 + rng.below(5);
+    let mut body = rand_tree(rng, &bspec, size, &mut scope, true);
+    // make sure both variables occur
+    body = HctlTreeNode::mk_hybrid(
+        HctlTreeNode::mk_binary(body, HctlTreeNode::mk_variable("y"), rng.pick(&[BinaryOp::And, BinaryOp::Or, BinaryOp::EU]).clone()),
+        "x",
+        None,
+        HybridOp::Jump,
+    );
+    let mut m = std::collections::HashMap::new();
+    if three && rng.chance(1, 2) {
+        // shifted names: (x,y) vs (y,z)
+        m.insert("x".to_string(), "y".to_string());
+        m.insert("y".to_string(), "z".to_string());
+    } else {
+        m.insert("x".to_string(), "y".to_string());
+        m.insert("y".to_string(), "x".to_string());
+    }
+    let other = rename_tree_vars(&body, &m);
+    let op = rng.pick(&[BinaryOp::And, BinaryOp::Or, BinaryOp::Xor, BinaryOp::Imp]).clone();
+    let mut t = if rng.chance(1, 2) { HctlTreeNode::mk_binary(body, other, op) } else { HctlTreeNode::mk_binary(other, body, op) };
+    let quants = [HybridOp::Bind, HybridOp::Exists, HybridOp::Forall];
+    let names: Vec<&str> = if m.contains_key("y") && m["y"] == "z" { vec!["z", "y", "x"] } else { vec!["y", "x"] };
+    for n in names {
+        let d = if !spec.doms.is_empty() && rng.chance(1, 4) { Some(rng.pick(&spec.doms).clone()) } else { None };
+        t = HctlTreeNode::mk_hybrid(t, n, d, rng.pick(&quants).clone());
+    }
+    t
+}
